@@ -122,6 +122,65 @@ impl Modelled for DTZ {
 	}
 }
 
+/// An element of ~2 KiB: only eight fit into one 16 KiB reservation chunk, so a vector of a dozen
+/// spans two chunks (its encoding is still one control byte).
+pub struct BigTracked(Tracked, [u64; 250]);
+impl Encode for BigTracked {
+	fn encode_to<W: parity_scale_codec::Output + ?Sized>(&self, dest: &mut W) {
+		self.0.encode_to(dest)
+	}
+}
+impl Decode for BigTracked {
+	fn decode<I: Input>(input: &mut I) -> Result<Self, Error> {
+		Ok(BigTracked(Tracked::decode(input)?, [0x5a5a; 250]))
+	}
+}
+impl DecodeWithMemTracking for BigTracked {}
+impl Modelled for BigTracked {
+	fn ty() -> Ty {
+		Tracked::ty()
+	}
+	fn to_val(&self) -> Val {
+		self.0.to_val()
+	}
+	fn from_val(v: &Val) -> Self {
+		BigTracked(Tracked::from_val(v), [0x5a5a; 250])
+	}
+}
+
+#[derive(Encode, Decode, DecodeWithMemTracking)]
+#[repr(transparent)]
+pub struct DTZ2(core::marker::PhantomData<u8>, (), Box<Tracked>);
+impl Modelled for DTZ2 {
+	fn ty() -> Ty {
+		Ty::Struct { name: "DTZ2".into(), fields: vec![FieldTy::plain(Ty::Unit), FieldTy::plain(Ty::Unit), FieldTy::plain(<Box<Tracked>>::ty())] }
+	}
+	fn to_val(&self) -> Val {
+		Val::Tuple(vec![Val::Unit, Val::Unit, self.2.to_val()])
+	}
+	fn from_val(v: &Val) -> Self {
+		DTZ2(Default::default(), (), Box::from_val(&f(v)[2]))
+	}
+}
+
+#[derive(Encode, Decode, DecodeWithMemTracking)]
+#[repr(transparent)]
+pub struct DTZ3 {
+	z: [(); 3],
+	t: Tracked,
+}
+impl Modelled for DTZ3 {
+	fn ty() -> Ty {
+		Ty::Struct { name: "DTZ3".into(), fields: vec![FieldTy::plain(<[(); 3]>::ty()), FieldTy::plain(Tracked::ty())] }
+	}
+	fn to_val(&self) -> Val {
+		Val::Tuple(vec![self.z.to_val(), self.t.to_val()])
+	}
+	fn from_val(v: &Val) -> Self {
+		DTZ3 { z: [(); 3], t: Tracked::from_val(&f(v)[1]) }
+	}
+}
+
 fn containers(slow: bool) -> Vec<TypeOps> {
 	let mut v: Vec<TypeOps> = Vec::new();
 	macro_rules! k { ($($t:ty),* $(,)?) => { $( v.push(monitor::probe_ops!($t)); )* } }
@@ -138,12 +197,16 @@ fn containers(slow: bool) -> Vec<TypeOps> {
 		[TrackedZst; 5], Box<[TrackedZst; 3]>, Vec<TrackedZst>, [[TrackedZst; 2]; 3], Box<TrackedZst>, (TrackedZst, Tracked, TrackedZst), Vec<Box<TrackedZst>>,
 		GenericArray<Tracked, typenum::U3>, Vec<GenericArray<Tracked, typenum::U2>>,
 		std::borrow::Cow<'static, [DupTracked]>,
+		DTZ2, Box<DTZ2>, [DTZ2; 2], DTZ3, Box<DTZ3>, [DTZ3; 3], Rc<DTZ3>, Vec<DTZ2>,
+		Vec<BigTracked>, VecDeque<BigTracked>, BinaryHeapBig, Vec<Vec<BigTracked>>,
 	);
 	if !slow {
 		k!([Tracked; 40], Box<[Tracked; 40]>, [Box<Tracked>; 40], Box<[Vec<Tracked>; 8]>, Vec<[Tracked; 8]>);
 	}
 	v
 }
+
+type BinaryHeapBig = (u8, Vec<BigTracked>);
 
 /// `Cow<[T]>` needs `T: Clone`; cloning an instrumented element registers a new instance.
 #[derive(Encode, Decode, DecodeWithMemTracking)]
@@ -274,7 +337,7 @@ fn run_case(ops: &TypeOps, bytes: &[u8], fault: Fault, layers: &[Layer], what: &
 pub fn c10(ctx: &Ctx) {
 	let mut rep = Report::new("C10");
 	let types = containers(ctx.is_slow());
-	let nvals = ctx.budget(200, 2000);
+	let nvals = ctx.budget(600, 6000);
 	for (ti, ops) in types.iter().enumerate() {
 		if ti % ctx.nshards != ctx.shard {
 			continue;
@@ -288,7 +351,7 @@ pub fn c10(ctx: &Ctx) {
 			// a value of the container with distinct "construct" tags, never touching the ledger
 			let mut val = {
 				let mut g = monitor::gen::Gen::small(&mut rng);
-				g.max_len = if ctx.is_slow() { 3 } else if vi % 3 == 2 { 40 } else { 8 };
+				g.max_len = if ctx.is_slow() && !ops.name.contains("BigTracked") { 3 } else if vi % 3 == 2 { 40 } else { 12 };
 				if ctx.is_slow() {
 					g.budget = 24;
 				}
